@@ -109,6 +109,21 @@ def run_case(case):
         try:
             node = T.to_node(tree)
             skip = 0
+            if case.get("prelude"):
+                # the stack has been in use: it has received (and presented) ordinary messages before the stimulus arrives
+                from yowsup.layers.protocol_messages.proto.e2e_pb2 import Message as _M
+                for k_, what in enumerate(case["prelude"]):
+                    pm = _M()
+                    if what == "text":
+                        pm.conversation = "earlier text %d" % k_
+                    else:
+                        pm.extended_text_message.text = "earlier link %d" % k_
+                        pm.extended_text_message.matched_text = "https://example.org"
+                    rig.inject(T.to_node(("message", {"id": "prelude-%d" % k_, "from": "4915100000099@s.whatsapp.net", "t": "1500000000",
+                                                      "type": "text", "notify": "n"},
+                                          [("proto", {}, pm.SerializeToString())])))
+                skip = len(rig.bottom.sent)
+                out.label("after_earlier_messages")
             if kind == "ping" and case.get("collide"):
                 # the server's ping carries the id of a request of this client that is still unanswered
                 pending_id, what = outstanding_request(rig, case["collide"], axolotl)
@@ -326,6 +341,9 @@ def plan(tier):
             shape = S.N("message", attrs, children=[S.N("proto", {}, data=blob)])
             strategies.append(("message_%s_%s" % (pk, "group" if group else "direct"),
                                S.shape_strategy(shape).map(lambda t: {"sub": "ack", "kind": "message_unpresentable", "tree": S.tree_to_json(t)}), n))
+            strategies.append(("message_%s_%s_after_earlier_messages" % (pk, "group" if group else "direct"),
+                               st.tuples(S.shape_strategy(shape), st.lists(st.sampled_from(["text", "extended"]), min_size=1, max_size=3)).map(
+                                   lambda tp: {"sub": "ack", "kind": "message_unpresentable", "tree": S.tree_to_json(tp[0]), "prelude": tp[1]}), n))
         attrs = dict(_msg_attrs(group), type=S.CONST("media"))
         for pk in ("location", "unknown_fields") + (("location+skdm", "unknown_fields+skdm") if group else ()):
             blob = S.Kind("PAYLOAD_media_" + pk, S.TEXT.strategy.map(lambda s, _pk=pk: payload(_pk, s)), is_bytes=True)
